@@ -152,6 +152,9 @@ class Ctx:
             raise ReplayPrecondition("encode_be first digit")
         return b
 
+    def fill(self, value, length):
+        return bytes([value]) * length
+
     def bytes_of(self, items):
         return bytes(items)
 
